@@ -24,10 +24,10 @@ CHECKS = {
     "C09": ("TLC check of the record grammar (Render/validity) + trace validation of every emitter's records", TWIN_NOTE, "7 C09"),
     "C10": ("TLC exhaustive mask lemmas + trace validation of tip arguments through every entry point", CALL_NOTE, "7 C10"),
     "C11": ("TLC model checking of history step properties + trace validation of histories", TWIN_NOTE, "7 C11"),
-    "C12": ("TLC exhaustive encode/decode + trace validation of selection strings by an independent decoder", CALL_NOTE, "7 C12"),
+    "C12": ("TLC exhaustive encode/decode, TLAPS lemma SelectLemmas (bit addressing for every number of wells) + trace validation of selection strings by an independent decoder", CALL_NOTE, "7 C12"),
     "C13": ("TLC robot semantics of script commands + trace validation of evo_aspirate/evo_dispense/evo_wash", TWIN_NOTE, "7 C13"),
     "C14": ("TLC plan contract + trace validation of DilutionPlan objects and their execution", TWIN_NOTE, "7 C14"),
-    "C15": ("TLC exhaustive transform lemmas + trace validation of shift/rotate/randomise calls", CALL_NOTE, "7 C15"),
+    "C15": ("TLC exhaustive transform lemmas, TLAPS TransformLemmas (every shape) + trace validation of shift/rotate/randomise calls", CALL_NOTE, "7 C15"),
     "C16": ("TLC model checking for both devices + trace validation of paired EVO/Fluent runs", TWIN_NOTE, "7 C16"),
     "C17": ("TLC file model + trace validation of written bytes", TWIN_NOTE, "7 C17"),
     "C18": ("TLC exhaustive partition contract + trace validation of partition_by_column calls", CALL_NOTE, "7 C18"),
